@@ -7,6 +7,7 @@ CONSTANTS
   EagerType = TRUE
   MdVariant = "code"
   HeaderBeforeAssign = FALSE
+  GlobalRefresh = "fields"
   AllocaRefresh = "fields"
   MaxCalls = 5
   Groups = {"globals", "aliases", "ifuncs"}
